@@ -165,7 +165,20 @@ package ice
 //@   site call onClose#0 ghost releasedRest := true
 //@   site call createRelayCandidate#1 ghost offered := true
 //@   loop 1 invariant every-started-round-made-an-offer: (rangeindex >= 0 ==> offered) && rangeindex + 1 <= len(addresses)
-//@   ensures a-live-endpoint-is-offered-to-a-candidate-or-released-completely: ep.conn != nil && ep.address != nil ==> offered || ((closedConn || ep.closeConn == nil) && (releasedRest || ep.onClose == nil))
+//@   ensures an-endpoint-is-offered-to-a-candidate-or-released-completely: offered || ((closedConn || ep.closeConn == nil) && (releasedRest || ep.onClose == nil))
+
+// When not even the candidate object can be built, nobody will ever run the endpoint's release hook
+// (it travels inside the candidate): createRelayCandidate runs it itself.
+//@ func (*Agent).createRelayCandidate
+//@   props AUX
+//@   opt nosafety
+//@   ghostvar built bool = false
+//@   ghostvar released bool = false
+//@   site call NewCandidateRelay#1 assert C09 the-release-hook-travels-with-the-candidate: arg0.OnClose == onClose
+//@   site call NewCandidateRelay#1 ghost built := result1 == nil
+//@   site call onClose#1 assert C09 released-only-when-no-candidate-could-be-built: !built
+//@   site call onClose#1 ghost released := true
+//@   ensures C09 an-endpoint-whose-candidate-cannot-be-built-is-released-here: !built && onClose != nil ==> released
 
 //@ func (*Agent).resolveRelayAddresses
 //@   props C09 C19
